@@ -457,6 +457,10 @@ func (c *checker) oneRun(r runSpec, pool *solver.Pool, dump string) int {
 			q = vc.Guard
 		}
 		j := &solver.Job{Label: vc.Label, Asserts: ex.WithDefs(q), Want: ex.Inputs}
+		if vc.Kind == "reach" {
+			// a witness only has to be found somewhere: do not spend the full cap on a hard state
+			j.SlowCap = 20 * time.Second
+		}
 		jobs = append(jobs, j)
 		pend = append(pend, &pending{vc: vc, job: j})
 	}
